@@ -264,6 +264,23 @@ ListClauses(W, S, ev) ==
                                               /\ ev.views.len = Len(ListNewSeq(W, S, ev)) /\ ev.views.size = ev.views.len,
     idle_after |-> Idle(ev.stk) ]
 
+\* object lists: clear() followed by appending the same number of FRESH objects - every path below the list
+\* starts over from its class initial state (values, rand_mode, constraint_mode)
+UnderList(x, l) == \E i \in 0..8 : LET pre == ElemPath(l, i) IN
+                      x = pre \/ (Len(x) > Len(pre) /\ SubSeq(x, 1, Len(pre) + 1) = pre \o ".")
+OlRefillEffect(W, S, ev) ==
+  LET l == ev.p
+      sc == {x \in DOMAIN W.scalars : UnderList(x, l)}
+      ob == {x \in DOMAIN W.objs : UnderList(x, l)}
+      ck == UNION {{CKey(o, b) : b \in BlockNames(W, W.objs[o].cls)} : o \in ob}
+  IN [S EXCEPT !.vals  = [x \in DOMAIN S.vals |-> IF x \in sc THEN W.scalars[x].init ELSE S.vals[x]],
+               !.rmode = [x \in DOMAIN S.rmode |-> IF x \in sc \cup ob THEN TRUE ELSE S.rmode[x]],
+               !.cmode = [k \in DOMAIN S.cmode |-> IF k \in ck THEN TRUE ELSE S.cmode[k]]]
+OlRefillClauses(W, S, ev) ==
+  [ known_list |-> ev.p \in DOMAIN S.sz /\ W.lists[ev.p].isobj, no_exception |-> ev.exc = "none",
+    facade_is_fresh_objects |-> ev.exc = "none" => ev.post = Proj(OlRefillEffect(W, S, ev)),
+    idle_after |-> Idle(ev.stk) ]
+
 (* --- a randomize call (composite of BeginCall . Pre* . Solve . Post* . EndCall) *)
 \* values as the solver sees them: the pre-state with the assignments made by pre_randomize callbacks
 AfterPre(S, ev) == IF "mid" \in DOMAIN ev THEN ev.mid ELSE Proj(S)
@@ -482,6 +499,7 @@ Clauses(W, S, ev) ==
     [] ev.op = "cmode"     -> CModeClauses(W, S, ev)
     [] ev.op \in {"rl_clear", "rl_extend", "rl_append"} -> RlClauses(W, S, ev)
     [] ev.op \in {"l_append", "l_extend", "l_assign", "l_clear", "l_setitem"} -> ListClauses(W, S, ev)
+    [] ev.op = "ol_refill" -> OlRefillClauses(W, S, ev)
     [] ev.op = "call"      -> CallClauses(W, S, ev)
     [] ev.op = "probe"     -> ProbeClauses(W, S, ev)
     [] ev.op = "explore"   -> ExploreClauses(W, S, ev)
@@ -494,6 +512,7 @@ Effect(W, S, ev) ==
     [] ev.op = "cmode"     -> CModeEffect(W, S, ev)
     [] ev.op \in {"rl_clear", "rl_extend", "rl_append"} -> RlEffect(W, S, ev)
     [] ev.op \in {"l_append", "l_extend", "l_assign", "l_clear", "l_setitem"} -> ListEffect(W, S, ev)
+    [] ev.op = "ol_refill" -> OlRefillEffect(W, S, ev)
     [] ev.op = "call"      -> CallEffect(W, S, ev)
     [] ev.op = "probe"     -> S
     [] ev.op = "explore"   -> ExploreEffect(W, S, ev)
